@@ -9,10 +9,12 @@ func init() { Registry["C07"] = C07 }
 
 // C07 — the j5s compiler is total and accepts the documented language.
 func C07(r *core.Run) {
-	r.Entry = []string{"j5parse.(*Parser).ParseFile", "j5convert.ConvertJ5File", "j5convert.SourceSummary", "protobuild.(*PackageSet).CompilePackage", "protobuild.LintFile"}
+	panicScope(r, entriesC07...)
 	rules.ExtTyping(r, []string{"internal/j5s/j5convert", "internal/j5s/sourcewalk", "internal/j5s/protobuild", "internal/j5s/j5parse"})
 	r.Floor("R-EXT/G1", 25, "SetExtension sites in j5convert confirmed by reading")
 	r.Floor("R-EXT/G2", 3, "GetExtension assertions in buildProperty")
+	rules.DescriptorAffinity(r, []string{"internal/j5s/j5convert", "internal/j5s/sourcewalk", "internal/j5s/protobuild", "internal/bcl", "internal/bcl/internal/walker", "internal/bcl/internal/walker/schema", "lib/j5reflect"})
+	r.Floor("R-EXT/G4", 1, "setJ5Ext's copy loop")
 	rules.ImportPairing(r)
 	r.Floor("R-EXT/G3", 25, "one per SetExtension site in j5convert")
 }
